@@ -90,19 +90,27 @@ def check_bs_case(c):
     ninner, degree, intercept = par["ninner"], par["degree"], bool(par["intercept"])
     df = ninner + degree + (1 if intercept else 0)
     base = {"x": c["x"], "later": c["later"], "df": df, "degree": degree, "intercept": intercept, "knots": [f"{q[0]}/{q[1]}" for q in c["knots"]]}
-    kmax = any(fr(q) == max(c["x"]) for q in c["knots"])
-    kmin = any(fr(q) == min(c["x"]) for q in c["knots"])
+    lbo, ubo = int(par.get("lbo", 0)), int(par.get("ubo", 0))
+    bounds = {}
+    if lbo:
+        bounds["lower_bound"] = min(c["x"]) - lbo
+    if ubo:
+        bounds["upper_bound"] = max(c["x"]) + ubo
+    base["bounds"] = dict(bounds)
+    ub_val = max(c["x"]) + ubo
+    kmax = any(fr(q) == ub_val for q in c["knots"])
+    kmin = any(fr(q) == min(c["x"]) - lbo for q in c["knots"])
     sig = {"knot_at_upper_bound": bool(kmax), "knot_at_lower_bound": bool(kmin)}
     try:
         b = BSpline()
-        tr = b(x, df=df, degree=degree, intercept=intercept)
+        tr = b(x, df=df, degree=degree, intercept=intercept, **bounds)
         _cmp_matrix(tr, c["train"], "bs", probs, base, sig)
         if len(later):
-            nw = b(later, df=df, degree=degree, intercept=intercept)
+            nw = b(later, df=df, degree=degree, intercept=intercept, **bounds)
             _cmp_matrix(nw, c["new"], "bs_later_data", probs, base, sig)
         # the same knots given explicitly
         b2 = BSpline()
-        tr2 = b2(x, knots=[float(fr(q)) for q in c["knots"]], degree=degree, intercept=intercept)
+        tr2 = b2(x, knots=[float(fr(q)) for q in c["knots"]], degree=degree, intercept=intercept, **bounds)
         if not np.allclose(tr2, tr, atol=TOL):
             probs.append((dict({"clause": "bs_explicit_knots_differ_from_df"}, **sig), base))
         if np.asarray(tr).shape[1] != df:
@@ -204,13 +212,16 @@ def traces(rep, n, seed):
         if len(set(x)) < 4:
             x[:4] = rng.sample(range(0, 7), 4)
         later = [rng.randint(0, 7) for _ in range(4)]
-        e = {"id": i + 1, "t": t, "x": x, "later": later, "degree": 1, "ninner": 0, "intercept": False}
+        e = {"id": i + 1, "t": t, "x": x, "later": later, "degree": 1, "ninner": 0, "intercept": False, "lbo": 0, "ubo": 0}
         if t == "poly":
             e["degree"] = rng.randint(1, 2)
         if t == "bs":
-            e["degree"] = rng.randint(1, 3)
+            e["degree"] = rng.randint(0, 3)
             e["ninner"] = rng.randint(0, 3)
             e["intercept"] = rng.random() < 0.6
+            if e["degree"] + e["ninner"] + (1 if e["intercept"] else 0) == 0:
+                e["intercept"] = True
+            e["lbo"], e["ubo"] = rng.choice([0, 0, 1, 2]), rng.choice([0, 0, 1])
         events.append(e)
     tmp = tlc.scratch_dir("fv_c14t_")
     try:
@@ -237,7 +248,7 @@ def traces(rep, n, seed):
         x = np.array(e["x"], dtype=float)
         later = np.array(e["later"], dtype=float)
         probs = []
-        base = {k: e[k] for k in ("t", "x", "later", "degree", "ninner", "intercept")}
+        base = {k: e[k] for k in ("t", "x", "later", "degree", "ninner", "intercept", "lbo", "ubo")}
         if e["t"] == "center":
             ce = Center()
             _cmp_matrix(ce(x), [[q] for q in r["train"]], "center", probs, base)
@@ -281,7 +292,7 @@ def main(tier, seed):
     if tier == "quick":
         mc(rep, "poly", {})
         mc(rep, "decision", {})
-        mc(rep, "bs", {"MinLen": 4, "MaxLen": 4, "MaxVal": 3})
+        mc(rep, "bs", {"MinLen": 4, "MaxLen": 4, "MaxVal": 2})
         traces(rep, 200, seed)
     else:
         mc(rep, "poly", {"MaxLen": 5})
